@@ -502,11 +502,37 @@ func (e *nodeEngine) recover(lost *nd, wantStatus string, o *Out) string {
 		// "succeed again" is not "succeed once": with the routing information settled, every
 		// further round from every survivor succeeds too (a lookup that depends on map iteration
 		// order - e.g. stopping at the lost node's stale row - passes one round by luck)
-		for round := 0; round < 6; round++ {
-			if r2, all := e.requests(); !all {
-				o.Fail("C18", "unstable-recovery", fmt.Sprintf("round %d after recovery: %s tables: %s", round, r2, e.diag()))
-				break
+		// (a round only counts while the survivors consider each other active: on a starved machine
+		// the failure detectors flap, a survivor is then legitimately not routed to, and "once routing
+		// information settles" is not the situation - wait for the views to settle again and restart)
+		mutuallyActive := func() bool {
+			for _, s := range e.survivors() {
+				for _, n := range s.srv.ClusterState().Nodes() {
+					for _, t := range e.survivors() {
+						if n.ID == t.id && n.Status != cluster.NodeStatusActive {
+							return false
+						}
+					}
+				}
 			}
+			return true
+		}
+		for round, restarts := 0, 0; round < 6; round++ {
+			before := mutuallyActive()
+			r2, all := e.requests()
+			if all {
+				continue
+			}
+			if (!before || !mutuallyActive()) && restarts < 5 {
+				restarts++
+				o.Count("recovery:flap-restart")
+				e.waitFor(settleBound, mutuallyActive)
+				e.waitFor(settleBound, func() bool { _, ok := e.requests(); return ok })
+				round = -1
+				continue
+			}
+			o.Fail("C18", "unstable-recovery", fmt.Sprintf("round %d after recovery: %s tables: %s", round, r2, e.diag()))
+			break
 		}
 		// the survivors' routing tables: whenever a survivor's table lists another ACTIVE node
 		// with a listener for the endpoint, its lookup finds a node (and never the lost one)
